@@ -31,7 +31,7 @@ def shift(ap, k):
 def run(ctx):
     nob, ndis, failing, files = common.obligations(ctx, PROPS)
     base = []
-    for fam, nq, nt in (("core", 60, 600), ("limits", 120, 1200), ("hours", 60, 600), ("coredeps", 40, 400), ("subslot", 40, 400), ("alap", 30, 300), ("yearend", 60, 600)):
+    for fam, nq, nt in (("core", 60, 600), ("limits", 120, 1200), ("hours", 60, 600), ("coredeps", 40, 400), ("subslot", 40, 400), ("alap", 30, 300), ("yearend", 60, 600), ("bookings", 60, 500)):
         base += gens.family(ctx, fam, ctx.n(nq, nt))
     for ap in base:                      # UTC projects: the property is about UTC, drop resource time zones
         for _, n in projects.walk(ap["resources"]):
